@@ -18,6 +18,16 @@ fn classify(cp: u32) -> [&'static str; 4] {
     ]
 }
 
+/// one lookup through one entry point
+fn one(entry: usize, cp: u32) -> &'static str {
+    match entry {
+        0 => class_value_g("Id", cp),
+        1 => class_value_g("Ff", cp),
+        2 => char::from_u32(cp).map(|c| class_value_char("Id", c)).unwrap_or("-"),
+        _ => char::from_u32(cp).map(|c| class_value_char("Ff", c)).unwrap_or("-"),
+    }
+}
+
 pub fn main(args: &[String]) {
     silence_panics();
     let seed = arg_u64(args, "--seed", 1);
@@ -60,6 +70,44 @@ pub fn main(args: &[String]) {
         let cp = rng.below(n as u64) as u32;
         check("random", cp, &mut problems);
         calls += 4;
+    }
+    // ONE lookup per visit (the orders above make four per code point, which hides state that flips with every
+    // lookup): each entry point alone ascending, then seeded random (entry, code point) pairs, then a code point asked
+    // once or three times through one entry followed by other code points through another
+    for e in 0..4usize {
+        for cp in 0..n {
+            let got = one(e, cp);
+            calls += 1;
+            if got != baseline[cp as usize][e] && problems.len() < 50 {
+                problems.push(json!({"order": "single entry ascending", "entry": e, "cp": cp, "baseline": baseline[cp as usize][e], "got": got}));
+            }
+        }
+    }
+    for _ in 0..4_000_000u32 {
+        let cp = rng.below(n as u64) as u32;
+        let e = rng.below(4) as usize;
+        let got = one(e, cp);
+        calls += 1;
+        if got != baseline[cp as usize][e] && problems.len() < 50 {
+            problems.push(json!({"order": "single random", "entry": e, "cp": cp, "baseline": baseline[cp as usize][e], "got": got}));
+        }
+    }
+    for i in 0..1_000_000u32 {
+        let cp = if i % 2 == 0 { rng.below(0x3400) as u32 } else { rng.below(n as u64) as u32 };
+        let e = rng.below(4) as usize;
+        for _ in 0..(1 + 2 * rng.below(2)) {
+            let _ = one(e, cp);
+            calls += 1;
+        }
+        for d in [1u32, 0x61, 0x4e00, 0xe000, 0x2028] {
+            let q = if d == 1 { (cp + 1) % n } else { d };
+            let e2 = rng.below(4) as usize;
+            let got = one(e2, q);
+            calls += 1;
+            if got != baseline[q as usize][e2] && problems.len() < 50 {
+                problems.push(json!({"order": "after odd repeats", "prev": cp, "entry": e2, "cp": q, "baseline": baseline[q as usize][e2], "got": got}));
+            }
+        }
     }
     // values above U+10FFFF that alias a real code point when high bits are truncated: asked right after the
     // code point itself; they are not scalar values, so both classes must answer DISALLOWED
@@ -106,5 +154,5 @@ pub fn main(args: &[String]) {
     for p in problems.iter() {
         println!("{}", json!({ "problem": p }));
     }
-    println!("{}", json!({"summary": {"calls": calls, "orders": 7, "problems": problems.len()}}));
+    println!("{}", json!({"summary": {"calls": calls, "orders": 10, "problems": problems.len()}}));
 }
